@@ -6,60 +6,101 @@
 
    The full statement is
        C19_statement cfg :=
-         forall s rs, usable (gp s) = true -> restored s (exec_runs cfg s rs) = true
-   - all interpreter states s whose decorator is usable (including states in which the
-     caller rebound sys.argv / sys.path after importing kernprof), all sequences rs of runs
-     = option sets x program behaviours (return, sys.exit, KeyboardInterrupt, exception;
-     editing sys.path / sys.argv in place; picking up a stale builtins.profile);
+         forall s rs, usable (gp s) = true -> setup_silent rs = true -> restored s (exec_runs cfg s rs) = true
+   - all interpreter states s whose decorator is usable, all sequences rs of runs = option sets
+     (including an output file that cannot be written, a closed stdout, a script that does not
+     exist) x program behaviours (return, sys.exit, KeyboardInterrupt, exception; editing or
+     rebinding sys.path / sys.argv; driving the builtin profile itself; the periodic-dump timer
+     firing at any moment; picking up a stale builtins.profile);
    - restored = sys.argv contents, sys.path contents, decorator usable and with the decision
-     and profiler it was found with, no profiler enabled, no timer thread left (the timer's
-     own interleavings with stop() are part of every program: Prog.p_sched).
+     and profiler it was found with, no profiler enabled, no timer thread left.
 
-   [current] (Cli/MainEffects.v) is the behaviour of the tree as it is now, i.e. after the
-   repairs 204c2e5, d567ae1, f436ae3, 2d3e878, a77d816, fcd15c8; [unrepaired] is the tree before.
-   The full statement holds of [current] (C19_restores; C19_runs_invisible for runs interleaved
-   with ordinary use) - nothing is left for a _partial theorem - and each of the six repairs is
-   shown to be necessary (the C19_..._needs_... theorems: a main lacking it violates its clause,
-   with the exact wrong state).  builtins.profile staying behind is not part of the statement;
-   it is modelled and compared ([effective_outcome]). *)
+   [current] (Cli/MainEffects.v) is the tree as it is now, after the repairs 204c2e5, d567ae1,
+   f436ae3, 2d3e878, a77d816, fcd15c8, 5d3505e; [unrepaired] is the tree before them.
+
+   The full statement is FALSE of [current] in three ways, each with the exact wrong state:
+     C19_profile_kept_when_script_missing_refuted  main(['-l', 'missing.py']): SystemExit leaves main
+         after the decorator (and builtins.profile) were taken over and before the try/finally;
+     C19_monitoring_id_kept_refuted   -l, program `profile.enable(); sys.settrace(None)`: the guard
+         `sys.gettrace() is prof` of fcd15c8 is false, the sys.monitoring id stays claimed;
+     C19_cprofile_left_on_refuted     -b, program leaves profile.enable() open AND the output file
+         cannot be opened: dump_stats() fails before create_stats() switched cProfile off.
+   C19_restores_partial: argv, path and threads are as found ALWAYS; the decorator when every
+   script exists; everything when moreover no run leaks ([no_leak current], characterised by
+   C19_current_leaks_iff).  C19_restores_if_fixed: with every repair the full statement holds;
+   each repair is necessary (the C19_..._needs_... theorems).  builtins.profile staying behind
+   is not part of the statement; it is modelled and compared ([effective_outcome]).
+
+   WHEN THESE ARE REPAIRED: set fx_missing / fx_untraced / fx_cprofile_off in [current]; the
+   corresponding *_refuted theorem (an instance of a general needs-lemma at [current]) stops
+   compiling - delete it; when all three are set also delete C19_restores_refuted and
+   C19_current_leaks_iff (lemmas current_refuted, current_leaks_iff) and state
+   `C19_restores : C19_statement current` by `exact (restores_if_fixed current eq_refl)`. *)
 From LP Require Import Prelude.Py Explicit.Base Gen.GlobalProfiler Cli.MainEffects Cli.MainEffectsProofs.
 
-(* After any sequence of in-process runs - whatever the options (including -p selections whose
-   registrations switch the profiler on), whatever the program does (edits or rebinds sys.path /
-   sys.argv, drives the builtin profile itself and leaves it on, lets the periodic-dump timer
-   fire at any moment), however it ends, whether main returns or raises - argv, path,
-   decorator, trace slot and threads are as found. *)
-Theorem C19_restores : C19_statement current.
-Proof. exact restores_current. Qed.
+(* ---- the tree as it is ---------------------------------------------------------------------- *)
+Theorem C19_profile_kept_when_script_missing_refuted :
+  exists s o p, usable (gp s) = true /\ undecided (gp s) = true /\ o_script_missing o = true
+                /\ fst (main current o p s) = Raised
+                /\ profile_ok s (snd (main current o p s)) = false
+                /\ gp (snd (main current o p s)) = mkGP (Some true) (Some (Ext (next_prof s))) "profile_output" 0 0.
+Proof. exact (missing_script_needs_handback current eq_refl). Qed.
 
-(* the same, spelled out for one call of main *)
-Theorem C19_restores_each_run :
-  forall s o p, usable (gp s) = true -> setup_uses o = [] -> restored s (snd (main current o p s)) = true.
-Proof. exact restores_current_run. Qed.
+Theorem C19_monitoring_id_kept_refuted :
+  exists s o p, usable (gp s) = true /\ tracing s = None /\ p_leaves p = LEnableUntraced /\ o_line o = true
+                /\ fst (main current o p s) = Returned
+                /\ tracing_ok s (snd (main current o p s)) = false.
+Proof. exact (untraced_enable_needs_release current eq_refl). Qed.
+
+Theorem C19_cprofile_left_on_refuted :
+  exists s o p, usable (gp s) = true /\ tracing s = None /\ p_leaves p = LEnable /\ o_line o = false
+                /\ o_builtin o = true /\ o_dump_fails o = true
+                /\ tracing_ok s (snd (main current o p s)) = false.
+Proof. exact (cprofile_needs_explicit_off current eq_refl). Qed.
+
+Theorem C19_restores_refuted : ~ C19_statement current.
+Proof. exact current_refuted. Qed.
+
+(* exactly which runs leave a profiler on *)
+Theorem C19_current_leaks_iff :
+  forall o p, leaks current o p
+  = ran o && (if o_line o then match p_leaves p with LEnableUntraced => true | _ => false end
+              else o_builtin o && match p_leaves p with LNone => false | _ => o_dump_fails o end).
+Proof. exact current_leaks_iff. Qed.
+
+(* What holds, for all interpreter states with a usable decorator and all sequences of runs (any
+   options - also results that cannot be written or shown -, outcomes, timer schedules, rebinding
+   programs, registrations): argv, path and threads are as found ALWAYS; the decorator is as found
+   when every script / module exists; everything is when moreover no run leaks. *)
+Theorem C19_restores_partial :
+  forall s rs, usable (gp s) = true -> setup_silent rs = true ->
+    argv_ok s (exec_runs current s rs) = true /\ path_ok s (exec_runs current s rs) = true
+    /\ timers_ok s (exec_runs current s rs) = true
+    /\ (scripts_found rs = true -> profile_ok s (exec_runs current s rs) = true)
+    /\ (scripts_found rs = true -> no_leak current rs = true -> restored s (exec_runs current s rs) = true).
+Proof. exact restores_current_partial. Qed.
 
 (* "... sequences of several in-process runs followed by ordinary use of the profile decorator":
    interleave kernprof.main runs (ARun) with enable() / disable() / decorations of
    line_profiler.profile (AUse) in any way - argv, path, trace slot and threads end as they
    started, and the whole decorator object ends exactly as the ordinary uses ALONE would have
-   left it ([user_gp]: the host's uses, and the uses made by the runs' -s setup files, which
-   run before kernprof takes the decorator over).  In particular a user's explicit
-   enable()/disable() survives every later run, whether it returns or raises.
-   (C19_restores itself is about runs whose setup files leave the decorator alone:
-   [setup_silent] in C19_statement.) *)
-Theorem C19_runs_invisible :
-  forall acts s, veq (exec_acts current s acts) (set_gp (user_gp acts (cur (argv s)) (gp s)) s).
+   left it ([user_gp]: the host's uses, and the uses made by the runs' -s setup files).
+   [no_leaking_act current]: no run leaks or names a missing script. *)
+Theorem C19_runs_invisible_partial :
+  forall acts s, no_leaking_act current acts = true ->
+                 veq (exec_acts current s acts) (set_gp (user_gp acts (cur (argv s)) (gp s)) s).
 Proof. exact runs_invisible_current. Qed.
 
-(* the decorator object and sys.argv, for the record (this half never depended on the trace slot) *)
-Theorem C19_decorator_after_any_runs :
-  forall acts s, gp (exec_acts current s acts) = user_gp acts (cur (argv s)) (gp s)
+(* the decorator object and sys.argv only need the scripts to exist - whether a run's results
+   could be written or not (5d3505e), whether a profiler leaked or not *)
+Theorem C19_decorator_after_runs_partial :
+  forall acts s, acts_found acts = true ->
+                 gp (exec_acts current s acts) = user_gp acts (cur (argv s)) (gp s)
                  /\ cur (argv (exec_acts current s acts)) = cur (argv s).
 Proof. exact decorator_under_kernprof. Qed.
 
-(* any main with these six behaviours satisfies C19 *)
-Theorem C19_restores_if_fixed :
-  forall cfg, fx_at_call cfg = true -> fx_finally cfg = true -> fx_profile cfg = true -> fx_timer cfg = true ->
-              fx_autoprof cfg = true -> fx_direct_enable cfg = true -> C19_statement cfg.
+(* a main with every repair satisfies C19 *)
+Theorem C19_restores_if_fixed : forall cfg, all_repaired cfg = true -> C19_statement cfg.
 Proof. exact restores_if_fixed. Qed.
 
 (* ---- each repair is necessary ---------------------------------------------------------------- *)
@@ -114,10 +155,42 @@ Theorem C19_direct_enable_needs_disable :
                 /\ tracing (snd (main cfg o p s)) = Some (Ext (next_prof s)).
 Proof. exact direct_enable_needs_disable. Qed.
 
+(* the hand-back must come BEFORE the results are written / shown (5d3505e): with an output file
+   that cannot be opened main raises out of its finally and the decorator stays taken over *)
+Theorem C19_profile_needs_early_handback :
+  forall cfg, fx_profile_first cfg = false -> fx_profile cfg = true ->
+  exists s o p, usable (gp s) = true /\ undecided (gp s) = true /\ o_dump_fails o = true
+                /\ fst (main cfg o p s) = Raised
+                /\ profile_ok s (snd (main cfg o p s)) = false
+                /\ gp (snd (main cfg o p s)) = mkGP (Some true) (Some (Ext (next_prof s))) "profile_output" 0 0.
+Proof. exact profile_needs_early_handback. Qed.
+
+Theorem C19_missing_script_needs_handback :
+  forall cfg, fx_missing cfg = false ->
+  exists s o p, usable (gp s) = true /\ undecided (gp s) = true /\ o_script_missing o = true
+                /\ fst (main cfg o p s) = Raised
+                /\ profile_ok s (snd (main cfg o p s)) = false
+                /\ gp (snd (main cfg o p s)) = mkGP (Some true) (Some (Ext (next_prof s))) "profile_output" 0 0.
+Proof. exact missing_script_needs_handback. Qed.
+
+Theorem C19_untraced_enable_needs_release :
+  forall cfg, fx_untraced cfg = false ->
+  exists s o p, usable (gp s) = true /\ tracing s = None /\ p_leaves p = LEnableUntraced /\ o_line o = true
+                /\ fst (main cfg o p s) = Returned
+                /\ tracing_ok s (snd (main cfg o p s)) = false.
+Proof. exact untraced_enable_needs_release. Qed.
+
+Theorem C19_cprofile_needs_explicit_off :
+  forall cfg, fx_cprofile_off cfg = false ->
+  exists s o p, usable (gp s) = true /\ tracing s = None /\ p_leaves p = LEnable /\ o_line o = false
+                /\ o_builtin o = true /\ o_dump_fails o = true
+                /\ tracing_ok s (snd (main cfg o p s)) = false.
+Proof. exact cprofile_needs_explicit_off. Qed.
+
 (* ---- the periodic-dump timer (-i N), with stop() falling anywhere - also into a dump ------------ *)
 (* Whatever the timer did before rt.stop() (expiries, dumps started and finished, in any
    interleaving) and whatever happens afterwards: no timer is armed, none can be armed again,
-   and when the dumps in progress have returned no helper thread is left.  (C19_restores uses
+   and when the dumps in progress have returned no helper thread is left.  (the theorems above use
    this for every program: Prog.p_sched is universally quantified there.) *)
 Theorem C19_timer_stop_final :
   forall pre post : list tevent,
